@@ -25,34 +25,13 @@ theorem C17_finding_expiry_noop (t : Table) (i : Inst) (h : i.tok ≠ i.chan) :
 theorem C17_expiry_touches_only_token_key (t : Table) (i : Inst) (r : Nat) (h : r ≠ i.tok) :
     (expire t i).get r = t.get r := expire_get_other t i h
 
-/-- every event is an OPN response for channel `c`, a chunk, or the expiry of
-    an instance whose token id is not `c` -/
-def NoTokEqChan (c : Nat) : List Ev → Prop
-  | [] => True
-  | .expire i :: r => i.tok ≠ c ∧ NoTokEqChan c r
-  | _ :: r => NoTokEqChan c r
-
 /-- … so a superseded instance is kept FOREVER: whatever renewals and expiry
-    timers follow (in any order, at any time), as long as no token id equals
-    the channel id, an instance once stored for channel `c` is still stored, -/
+    timers follow (in any order, at any time), as long as no expiring token id
+    equals the channel id (`NoTokEqChan`), an instance once stored for channel
+    `c` is still stored, -/
 theorem C17_finding_kept_forever (c : Nat) (evs : List Ev) (t : Table) (i : Inst)
-    (hno : NoTokEqChan c evs) (hm : i ∈ t.get c) : i ∈ (runEvs t evs).get c := by
-  induction evs generalizing t with
-  | nil => exact hm
-  | cons e r ih =>
-    cases e with
-    | opn j =>
-      apply ih _ hno
-      simp only [stepEv]
-      by_cases hc : c = j.chan
-      · subst hc; rw [install_get_same]; exact List.mem_append_left _ hm
-      · rw [install_get_other t j hc]; exact hm
-    | expire j =>
-      apply ih _ hno.2
-      simp only [stepEv]
-      rw [expire_get_other t j (fun e => hno.1 e.symm)]
-      exact hm
-    | chunk a k => exact ih _ hno hm
+    (hno : NoTokEqChan c evs) (hm : i ∈ t.get c) : i ∈ (runEvs t evs).get c :=
+  kept_forever c evs t i hno hm
 
 /-- … and a chunk secured with its keys is still accepted. -/
 theorem C17_finding_old_keys_accepted (c : Nat) (evs : List Ev) (t : Table) (i : Inst)
